@@ -29,7 +29,7 @@ func init() {
 		Rule:        "crash-point enumeration: a child process runs a seeded sequential workload (autocommit Set/SetReader/Create/Delete, ReadCommitted and RepeatableRead transactions with multi-key write sets, commits, rollbacks, conflicts, collector passes and worker-pool drains) on the real inline database, logging 'B i' before and 'E i <class>' after every client operation to an unbuffered file; a hook handler counts the persistent-mutation points (directory/file create/remove, every content file write and close, every Badger set/delete/transaction, the steps of Set, of the commit and of the cleaner) and kills the process with SIGKILL at the N-th. A first run without a kill learns the points; then one run per selected N. A fresh verify process opens the database, dumps GetKeys and every content, closes, opens and dumps again; further variants kill the recovery itself at its n-th mutation point and verify again, and continue writing after recovery. Oracle: with A = model state after all acknowledged operations and A' = A plus the single in-flight operation applied completely, each dump must equal A or A' exactly (keys and complete contents), both dumps must agree, every listed key must be readable. evaluations = crash runs verified; distinct_nontrivial = distinct (point name, in-flight operation kind, ordinal of the point within the operation) crash sites",
 		Assumptions: []string{"a Badger Update is atomic and durable under SIGKILL of the process (page cache survives; power loss is out of scope)", "reference model refmodel"},
 		Roles: map[string]Role{
-			"main":       {N: func(t string) int { return c04Shards * tierN(t, 2, 24) }, Case: c04Case},
+			"main":       {N: func(t string) int { return c04Shards * tierN(t, 3, 24) }, Case: c04Case},
 			"randomkill": {N: func(t string) int { return tierN(t, 32, 1500) }, Case: c04RandomKill},
 		},
 	})
@@ -368,6 +368,20 @@ func c04Workload(seed int64, idx int, tier string) []seqrun.Step {
 			set(id, keys[rng.Intn(len(keys))])
 		},
 	}
+	if idx%3 == 2 {
+		// one commit of a few thousand keys: it has to become visible as a whole however the
+		// implementation chunks its writes
+		id := 9000
+		steps = append(steps, seqrun.Step{Op: "begin", Actor: id, Level: 1})
+		n := 1100 + rng.Intn(400)
+		if tier == "thorough" {
+			n = 2200 + rng.Intn(1500)
+		}
+		for i := 0; i < n; i++ {
+			steps = append(steps, seqrun.Step{Op: "set", Actor: id, Key: fmt.Sprintf("bulkc%04d", i), Tag: fmt.Sprintf("w%d-c%d", idx, i), Len: 4})
+		}
+		steps = append(steps, seqrun.Step{Op: "commit", Actor: id})
+	}
 	if idx%3 == 1 {
 		// recovery has to read more version records than one iterator batch holds
 		for i, n := 0, 105+rng.Intn(60); i < n; i++ {
@@ -405,12 +419,33 @@ func c04Case(tier string, seed int64, caseIdx int, scratch string) rt.CaseResult
 	}
 	// choose the crash points
 	var picks []int
+	perStep := map[int]int{}
+	for _, nm := range lo.Names {
+		stepIdx := -1
+		fmt.Sscanf(nm[strings.LastIndex(nm, "@")+1:], "%d", &stepIdx)
+		perStep[stepIdx]++
+	}
+	ordInStep := map[int]int{}
 	for i, nm := range lo.Names {
 		stepIdx := -1
 		fmt.Sscanf(nm[strings.LastIndex(nm, "@")+1:], "%d", &stepIdx)
+		ordInStep[stepIdx]++
+		if n, o := perStep[stepIdx], ordInStep[stepIdx]; stepIdx >= 0 && n > 400 {
+			// a step with thousands of mutation points (a very large commit): a sample of them,
+			// spread over the whole step, shared out over the shards
+			if o%197 == 0 || o <= 2 || o > n-2 {
+				if (o/197+o)%c04Shards == shard {
+					picks = append(picks, i+1)
+				}
+			}
+			continue
+		}
 		op := ""
 		if stepIdx >= 0 && stepIdx < len(steps) {
 			op = steps[stepIdx].Op
+		}
+		if stepIdx >= 0 && stepIdx < len(steps) && strings.HasPrefix(steps[stepIdx].Key, "bulkc") && i%307 != 0 {
+			continue // the writes that prepare the very large commit
 		}
 		if stepIdx >= 0 && stepIdx < len(steps) && strings.HasPrefix(steps[stepIdx].Key, "bulk") && i%41 != 0 {
 			continue // the bulk prefix only provides records; a few of its points are enough
